@@ -44,6 +44,7 @@ func main() {
 	harness.Main("C12", "exploration",
 		harness.Layer{Name: "seq", Run: layerSeq},
 		harness.Layer{Name: "conc", Run: layerConc},
+		harness.Layer{Name: "restart-real", Run: layerRestartReal},
 	)
 }
 
